@@ -146,3 +146,15 @@ def dims_info(part):
         out.append(len(d.valid_elements))
         out.append(len(d.subtotals))
     return tuple(out)
+
+
+def subtotal_idxs(part):
+    """Per dimension of the partition: list of (addend_idxs, subtrahend_idxs) of its valid
+    subtotals, in definition order (read from the library's own Dimension objects)."""
+    out = []
+    for d in part._dimensions:
+        out.append([
+            ([int(i) for i in s.addend_idxs], [int(i) for i in s.subtrahend_idxs])
+            for s in d.subtotals
+        ])
+    return out
